@@ -34,6 +34,7 @@ XQUERY_TEST_SUITE_CASEBLIND_COLLATION = \
     "http://www.w3.org/2010/09/qt-fots-catalog/collation/caseblind"
 
 _locale_collate_lock = threading.RLock()  # re-entrant: collation functions can be nested
+_active_managers: list['CollationManager'] = []  # in order of entry, changed with the lock held
 
 
 def get_locale_category(category: int) -> str:
@@ -163,6 +164,7 @@ class CollationManager(context_class_base):
                     except locale.Error:
                         pass  # also the fallback locale is not available
                     else:
+                        _active_managers.append(self)
                         return self
 
                 self._current_lc_collate = None
@@ -171,13 +173,22 @@ class CollationManager(context_class_base):
                 msg = f"Unsupported collation {self.collation!r}"
                 raise xpath_error('FOCH0002', msg, self.token) from None
 
+            _active_managers.append(self)
+
         return self
 
     def __exit__(self, exc_type: Optional[type[BaseException]],
                  exc_val: Optional[BaseException],
                  exc_tb: Optional[TracebackType]) -> None:
         if self._current_lc_collate is not None:
-            locale.setlocale(locale.LC_COLLATE, self._current_lc_collate)
+            index = _active_managers.index(self)
+            if index == len(_active_managers) - 1:
+                locale.setlocale(locale.LC_COLLATE, self._current_lc_collate)
+            else:
+                # Left before a manager that was entered later (a pending generator of a
+                # nested collation function): that one restores what this one found
+                _active_managers[index + 1]._current_lc_collate = self._current_lc_collate
+            del _active_managers[index]
             self._current_lc_collate = None
             _locale_collate_lock.release()
 
